@@ -150,12 +150,14 @@ def rewParts : List RewAtom → State → Action → State → Except PyErr (Lis
       | .error e => .error e
       | .ok ts => .ok (t :: ts)
 
+/-- one step of Python's `sum`: `acc + part` (undefined here as soon as a part is not an integer) -/
+def addTerm (acc : Option Int) (t : RTerm) : Option Int :=
+  match acc, t with
+  | some a, .int n => some (a + n)
+  | _, _ => none
+
 /-- Python `sum(parts)`: left fold of `+` from 0, for all-integer parts -/
-def sumInts : List RTerm → Option Int
-  | [] => some 0
-  | ts => ts.foldl (fun acc t => match acc, t with
-      | some a, .int n => some (a + n)
-      | _, _ => none) (some 0)
+def sumInts (ts : List RTerm) : Option Int := ts.foldl addTerm (some 0)
 
 /-- registered terminating functions -/
 inductive TermFn
